@@ -336,4 +336,7 @@ def run(ck, tier):
     ck.assume('equality of delivered message sequences over all chunkings is not decided; these are necessary structural conditions')
     from .. import ownership as _own
     ck.guard(_own.rule_instance_owned, ck, cx, 'R9', _own.FRAMERS, "the parsed header of one receiver's pending frame is overwritten by another receiver", 4)
+    from .. import ownership as _own2
+    ck.rule('R11', 'no unsound memoisation (a caching decorator on a method, or on a function that returns a mutable container) in the modules this property rests on')
+    ck.guard(_own2.rule_no_unsafe_memo, ck, cx, 'R11', ('pymodbus.framer', 'pymodbus.framer.socket_framer', 'pymodbus.framer.rtu_framer', 'pymodbus.framer.ascii_framer', 'pymodbus.framer.binary_framer', 'pymodbus.framer.tls_framer', 'pymodbus.utilities'), 'a decision of the receiver is taken from a value cached for other bytes')
     return cx.idx
